@@ -111,6 +111,10 @@ DATA = {
     'Gen_boxsel': [
         dict(name='box_choice', kind='option_chain', file='polyply/src/gen_coords.py', func='gen_coords', var='box'),
         dict(name='init_box', kind='init_box', file='polyply/src/build_system.py', func='BuildSystem.__init__'),
+        dict(name='explicit_mass_guard', kind='guard_of_assign', file='polyply/src/build_system.py', func='_compute_box_size',
+             target='total_mass', value="molecule.nodes[node]['mass']"),
+        dict(name='type_mass_guard', kind='guard_of_assign', file='polyply/src/build_system.py', func='_compute_box_size',
+             target='total_mass', value="topology.atom_types[atype]['mass']"),
     ],
     'Gen_engine_consts': [
         dict(name='tree_threshold', kind='int_compare_const', file='polyply/src/nonbond_engine.py',
